@@ -20,7 +20,7 @@ from .common import muted, rng, stable_hash, boundary_values
 LEVEL = 'exploration'
 RULE = ('a case is one recording: a generated design plan (1-7 wires of width 1-64 driven by Wire.put pokes between clk() '
         'calls, py4hw.Sequence blocks, Counter, Buf and Reg copies; a watch list of 1-10 entries mixing Wire, InPort and OutPort '
-        'objects with duplicates and port+wire aliases; a random order of the leaves around probe-before < Waveform < probe-after) '
+        'objects with duplicates and port+wire aliases and, in 30%, FieldInspector / ValueFormatter rows at any position; in 25% the recorder is attached after the simulator exists (warm-up cycles and/or a Scope) and the simulator refreshed with getSimulator(); a random order of the leaves around probe-before < Waveform < probe-after) '
         '(wires may share a short name across two scopes) plus a step list (clk(n) calls with n in 0..40, pokes, clear(), checkpoints) totalling 0-200 cycles; value histories are '
         'built from small per-wire pools with forced run lengths 1-9 so that values repeat and return. Every checkpoint compares '
         'getDict() with the probes and decodes get_wavedrom() for every watch entry (one evaluation per entry and checkpoint). '
@@ -67,6 +67,27 @@ def decode_lane(wave, data, width):
                 raise DecodeError('label %r is not in the {:X} display format' % (lab,))
             out.append(int(lab, 16))
     return out, (len(data) - di if data else 0)
+
+
+def decode_label_lane(wave, data):
+    """Row of a FieldInspector / ValueFormatter -> list of label strings, one per cycle ('2' = next label, '.' = repeat)."""
+    if not isinstance(wave, str) or len(wave) < 2 or wave[0] != 'x' or wave[-1] != 'x':
+        raise DecodeError('lane is not x...x: %r' % (wave,))
+    out = []
+    di = 0
+    for pos, ch in enumerate(wave[1:-1]):
+        if ch == '.':
+            if not out:
+                raise DecodeError('run-length dot with no previous sample at cycle %d' % pos)
+            out.append(out[-1])
+        elif ch == '2':
+            if data is None or di >= len(data):
+                raise DecodeError('no data label left for cycle %d' % pos)
+            out.append(data[di])
+            di += 1
+        else:
+            raise DecodeError('label lane has character %r at cycle %d' % (ch, pos))
+    return out
 
 
 def decode_clock_lane(wave):
@@ -219,7 +240,22 @@ def gen_plan(rnd):
     steps.append(dict(op='check', short=True))
     # second clock domain: the clocked producers live under their own (ungated) ClockDriver, visited before or after the recorder's
     multi = rnd.choice(['first', 'last']) if rnd.random() < 0.2 else None
-    return dict(wires=wires, watch=watch, layout=layout, nest=rnd.random() < 0.25, steps=steps, multi=multi)
+    nest = rnd.random() < 0.25
+    # rows that are not wires (py4hw.FieldInspector / a ValueFormatter subclass) at any position of the watch list: first,
+    # between wires of either format class, last, repeated.  They watch a harness-owned attribute that changes between clk() calls.
+    if rnd.random() < 0.3:
+        for _ in range(rnd.choice([1, 1, 2, 3])):
+            watch.insert(rnd.randint(0, len(watch)), dict(wire=None, form=rnd.choice(['fi', 'fi', 'vf'])))
+        tpool = rnd.sample([0, 3, 9, 10, 12, 31, 255, 4096, 48879, 1 << 40], rnd.randint(2, 4))
+        for st in steps:
+            if st['op'] == 'clk' and rnd.random() < 0.4:
+                st['tag'] = rnd.choice(tpool)
+    # creation history: the recorder is attached to a system whose simulator already exists (created explicitly and run for a
+    # few cycles, and/or created by a py4hw.Scope), then the simulator is refreshed with HWSystem.getSimulator()
+    attach = None
+    if rnd.random() < 0.25:
+        attach = dict(warm=rnd.choice([0, 1, 2, 5]), scope=rnd.random() < 0.4)
+    return dict(wires=wires, watch=watch, layout=layout, nest=nest, steps=steps, multi=multi, attach=attach)
 
 
 # --------------------------------------------------------------------------- execution + judgement
@@ -248,7 +284,19 @@ def _classes():
         """Structural wrapper so that the recorder and its probes can live one level down."""
         pass
 
-    return Probe, Box
+    class Fmt(py4hw.ValueFormatter):
+        """Custom-visualisation row: shows a harness-owned attribute as text."""
+
+        def __init__(self, obj, field):
+            self.obj, self.field, self.name = obj, field, 'fmt_' + field
+
+        def get(self):
+            return 'v%d' % getattr(self.obj, self.field)
+
+        def getFullPath(self):
+            return self.obj.getFullPath() + '/' + self.name
+
+    return Probe, Box, Fmt
 
 
 class Bad(Exception):
@@ -275,7 +323,7 @@ def run_plan(plan, stats=None):
     """Build the planned design on the real py4hw, run the steps, judge every checkpoint.
     Returns (n_evaluations, nontrivial?, harness_problems); raises Bad on the first violated clause."""
     import py4hw
-    Probe, Box = _classes()
+    Probe, Box, Fmt = _classes()
     stats = stats if stats is not None else {}
 
     def cnt(k, n=1):
@@ -309,10 +357,16 @@ def run_plan(plan, stats=None):
         elif k == 'counter':
             blocks[nm] = py4hw.Counter(par, nm, ws[s['reset']], ws[s['inc']], ws[i])
     pb = Probe(top, 'pb', ws, 'p_')
+    side.tag = 0
+    fi = py4hw.FieldInspector(side, 'tag')
+    vf = Fmt(side, 'tag')
 
     objs = []
     for e in plan['watch']:
         i, f = e['wire'], e['form']
+        if i is None:
+            objs.append(fi if f == 'fi' else vf)
+            continue
         if f == 'wire':
             o = ws[i]
         elif f == 'pin':
@@ -325,13 +379,33 @@ def run_plan(plan, stats=None):
         if f != 'wire' and o.wire is not ws[i]:
             raise RuntimeError('harness: port %s is not on wire %s' % (o.getFullPath(), ws[i].name))
         objs.append(o)
+    late = plan.get('attach')
+    pa = None
+    if late:
+        # the system (drivers, probes) exists and is simulated before the recorder is created
+        pa = Probe(top, 'pa', ws, 'q_')
+        try:
+            if late['scope']:
+                py4hw.Scope(top, 'scope', [ws[0]])          # its constructor creates the simulator
+            sim0 = hw.getSimulator()
+            sim0.clk(late['warm'])
+        except Exception as ex:
+            raise RuntimeError('harness: warm-up before attaching the recorder failed: %r' % (ex,))
+        pb.reset()
+        pa.reset()
+        pb.calls = pa.calls = 0
     try:
         wf = py4hw.Waveform(top, 'wf', list(objs))
     except Exception as ex:
         raise Bad('raises', dict(stage='construct'), observed=repr(ex)[:200], what='Waveform(...) raises %r' % (ex,))
-    pa = Probe(top, 'pa', ws, 'q_')
+    if pa is None:
+        pa = Probe(top, 'pa', ws, 'q_')
     every = dict(blocks, pb=pb, wf=wf, pa=pa)
-    top.children = {k: every[k] for k in plan['layout'] if k not in in_dom}        # the planned visiting order of the leaves
+    order_ = {k: every[k] for k in plan['layout'] if k not in in_dom}               # the planned visiting order of the leaves
+    for k, v in top.children.items():
+        if k not in order_:
+            order_[k] = v
+    top.children = order_
     if dom is not None:
         # the other domain's leaves are registered (and its driver visited) before or after the recorder's
         rest = {k: v for k, v in hw.children.items() if v is not dom}
@@ -340,15 +414,17 @@ def run_plan(plan, stats=None):
     # reference = the value every wire carries when a cycle starts (going into the clock edge), taken by a wrapper
     # around Simulator._clk_cycle; the probes around the recorder are a cross-check of the clocking-phase view
     pre = [[] for _ in ws]
+    tags = []
     real_cycle = sim._clk_cycle
 
     def cycle_with_snapshot():
         for lst, w in zip(pre, ws):
             lst.append(w.get())
+        tags.append(side.tag)
         return real_cycle()
     sim._clk_cycle = cycle_with_snapshot
     import types
-    ref = types.SimpleNamespace(rec=pre)
+    ref = types.SimpleNamespace(rec=pre, tags=tags)
     order = hw.allLeaves()                  # the order in which the simulator registers (and clocks) the leaves
     if not (order.index(pb) < order.index(wf) < order.index(pa)):
         raise RuntimeError('harness: probes do not bracket the Waveform in the leaf order')
@@ -371,6 +447,8 @@ def run_plan(plan, stats=None):
             for i, v in st['pokes']:
                 ws[i].put(v)
                 poked[i] = v
+            if 'tag' in st:
+                side.tag = st['tag']
             try:
                 sim.clk(st['n'])
             except Exception as ex:
@@ -390,6 +468,7 @@ def run_plan(plan, stats=None):
             pa.reset()
             for lst in pre:
                 del lst[:]
+            del tags[:]
             model = {i: [] for i in poked}
             since = 0
             cnt('clears')
@@ -410,7 +489,7 @@ def run_plan(plan, stats=None):
             if pb.rec != pre:
                 cnt('probe_view_differs_from_pre_cycle_snapshot')
             nev += _judge(plan, wf, objs, ws, ref, since, bool(st.get('short')), cnt)
-            if any(_nontrivial(pre[e['wire']]) for e in plan['watch']):
+            if any(_nontrivial(pre[e['wire']]) for e in plan['watch'] if e['wire'] is not None):
                 nontriv = True
     return nev, nontriv, problems
 
@@ -425,6 +504,18 @@ def _judge(plan, wf, objs, ws, pb, ncycles, short, cnt):
     seen = set()
     for k, e in enumerate(watch):
         i = e['wire']
+        if i is None:
+            exp = list(pb.tags) if e['form'] == 'fi' else ['v%d' % t for t in pb.tags]
+            try:
+                obs = d[objs[k]]
+            except Exception as ex:
+                raise Bad('getdict_missing_wire', dict(clause='getDict', form=e['form']), observed=repr(ex)[:120],
+                          what='getDict() has no entry for watch entry %d (%s)' % (k, e['form']))
+            if obs != exp:
+                rel = _relation(exp, obs)
+                raise Bad('getdict_samples', dict(clause='getDict', form=e['form'], relation=rel), expected=exp, observed=obs,
+                          what='getDict()[%s row] differs from the attribute values of %d cycles (%s)' % (e['form'], ncycles, rel))
+            continue
         exp = pb.rec[i]
         dup = (i in seen)
         seen.add(i)
@@ -458,14 +549,31 @@ def _judge(plan, wf, objs, ws, pb, ncycles, short, cnt):
     nev = 0
     for k, e in enumerate(watch):
         i = e['wire']
-        width = specs[i]['width']
         lane = sig[k + 1]
-        exp = pb.rec[i]
-        fields = dict(clause='wavedrom', form=e['form'], wide=width > 1)
         name = objs[k].name if short else objs[k].getFullPath()
         if lane.get('name') != name:
             raise Bad('wavedrom_entries', dict(relation='name', short=short, form=e['form']), expected=name, observed=lane.get('name'),
                       what='lane %d is named %r, watch entry %d is %r' % (k, lane.get('name'), k, name))
+        if i is None:
+            # non-wire row: labels in that row's own format ('{}'), run-length dots, one slot per cycle
+            exp = ['{}'.format(t) if e['form'] == 'fi' else 'v%d' % t for t in pb.tags]
+            fields = dict(clause='wavedrom', form=e['form'])
+            try:
+                got = decode_label_lane(lane.get('wave'), lane.get('data'))
+            except DecodeError as ex:
+                raise Bad('wavedrom_decode', dict(fields, relation='undecodable'), expected=exp, observed=dict(wave=lane.get('wave'), data=lane.get('data')),
+                          what='lane %d (%s row): %s' % (k, e['form'], ex))
+            if got != exp:
+                rel = _relation(exp, got)
+                raise Bad('wavedrom_decode', dict(fields, relation=rel), expected=exp, observed=dict(decoded=got, wave=lane.get('wave'), data=lane.get('data')),
+                          what='lane %d (%s row) does not show the recorded values in its own {} format (%s)' % (k, e['form'], rel))
+            nev += 1
+            cnt('lanes_decoded')
+            cnt('form_' + e['form'])
+            continue
+        width = specs[i]['width']
+        exp = pb.rec[i]
+        fields = dict(clause='wavedrom', form=e['form'], wide=width > 1)
         try:
             got, unused = decode_lane(lane.get('wave'), lane.get('data'), width)
         except DecodeError as ex:
@@ -486,6 +594,23 @@ def _judge(plan, wf, objs, ws, pb, ncycles, short, cnt):
 
 def _features(plan):
     f = set()
+    allw = plan['watch']
+    if any(e['wire'] is None for e in allw):
+        f.add('inspector_rows')
+        pos = [k for k, e in enumerate(allw) if e['wire'] is None]
+        if pos[0] == 0:
+            f.add('inspector_first')
+        if pos[-1] == len(allw) - 1:
+            f.add('inspector_last')
+        for k in pos:
+            if 0 < k < len(allw) - 1:
+                f.add('inspector_between')
+            if k > 0 and allw[k - 1]['wire'] is not None:
+                f.add('inspector_after_1bit_wire' if plan['wires'][allw[k - 1]['wire']]['width'] == 1 else 'inspector_after_wide_wire')
+    if plan.get('attach'):
+        f.add('late_attach')
+        f.add('late_attach_after_scope' if plan['attach']['scope'] else 'late_attach_after_warmup')
+    plan = dict(plan, watch=[e for e in allw if e['wire'] is not None])
     ws = [e['wire'] for e in plan['watch']]
     ents = [(e['wire'], e['form']) for e in plan['watch']]
     if len(set(ents)) < len(ents):
@@ -568,14 +693,14 @@ def run_check(run, tier, seed, shard):
             if not stats.get(need):
                 run.inconclusive.append('monitor observed no %s' % need)
     if shard is None:
-        for need in ('duplicate_entry', 'port_wire_alias', 'clear', 'zero_cycles'):
+        for need in ('duplicate_entry', 'port_wire_alias', 'clear', 'zero_cycles', 'late_attach', 'inspector_between'):
             if not feats.get(need):
                 run.inconclusive.append('no recording with %s' % need)
 
 
 def post_merge(run, tier, seed):
     feats = run.extra.get('recordings_with', {})
-    for need in ('duplicate_entry', 'port_wire_alias', 'clear', 'zero_cycles'):
+    for need in ('duplicate_entry', 'port_wire_alias', 'clear', 'zero_cycles', 'late_attach', 'inspector_between'):
         if not feats.get(need):
             run.inconclusive.append('no recording with %s' % need)
     for need in ('lanes_decoded', 'checkpoints', 'cycles'):
